@@ -279,6 +279,27 @@ def play_hist(h, doms, rngs):
                 s.nice(int(x))
             elif a == "Y":
                 scales.append(s.copy())
+            elif a == "E":
+                # the caller edits, in place, the list object the scale holds as its range and passes the SAME object again
+                r = s.range()
+                if not isinstance(r, list):
+                    r = list(r)
+                    s.range(r)
+                r[0], r[1] = rngs[x][0], rngs[x][1]
+                s.range(r)
+            elif a == "G":
+                # the list the getter returned, edited in place and passed back
+                d = s.domain()
+                if not isinstance(d, list):
+                    d = list(d)
+                d[0], d[1] = doms[x][0], doms[x][1]
+                s.domain(d)
+            elif a == "X":
+                # no pair of numbers: the setter raises before it stores anything, the caller catches it and goes on
+                try:
+                    s.domain([doms["dA"][0], None])
+                except (TypeError, ValueError, AttributeError):
+                    pass
             elif a == "F":
                 s.domain(scales[int(x) - 1].domain())        # the very list object the other scale reports
         except Exception as ex:          # a setter / nice / copy that raises on a legal argument: data for the verdict
@@ -301,7 +322,7 @@ def random_hist(rng):
     n = 1
     h = []
     for _ in range(rng.randint(3, 15)):
-        a = rng.choice(["D", "D", "R", "K", "N", "N", "Y", "F"])
+        a = rng.choice(["D", "D", "R", "K", "N", "N", "Y", "F", "E", "E", "G", "X"])
         i = rng.randint(1, n)
         if a == "Y":
             if n >= 4:
@@ -312,10 +333,12 @@ def random_hist(rng):
             if n < 2:
                 continue
             x = str(rng.choice([t for t in range(1, n + 1) if t != i]))
-        elif a == "D":
+        elif a in ("D", "G"):
             x = rng.choice(["dA", "dB", "dC"])
-        elif a == "R":
+        elif a in ("R", "E"):
             x = rng.choice(["rA", "rB"])
+        elif a == "X":
+            x = ""
         elif a == "K":
             x = "1"
         else:
